@@ -125,7 +125,7 @@ func main() {
 				"ik": ev.Ints(args[2]), "ak": ev.Ints(args[3]), "akStar": ev.Ints(args[4]), "err": e3 != nil || pp != ""})
 		}
 
-		nchecks := 0
+		nchecks, nauts := 0, 0
 		gen := func(sqn []byte) []byte {
 			autn, gik, gck, gak, gres := make([]byte, 16), make([]byte, 16), make([]byte, 16), make([]byte, 6), make([]byte, 8)
 			var rl uint = 8
@@ -159,6 +159,10 @@ func main() {
 		}
 		autsCheck := func(auts []byte, cls string) {
 			sqn := make([]byte, 6)
+			nauts++
+			if nauts%2 == 0 {
+				sqn = []byte{255, 255, 255, 255, 255, 255} // the caller's buffer may hold anything (a counter of its own, an earlier result)
+			}
 			ret := 99
 			p := ev.Catch(func() { ret = milenage.Milenage_auts(opc, k, rnd, cp(auts), sqn) })
 			emit(ev.M{"ev": "Auts", "cls": cls, "k": ev.Ints(k), "opc": ev.Ints(opc), "rand": ev.Ints(rnd), "auts": ev.Ints(auts),
